@@ -52,8 +52,26 @@ def is_hash_source(c):
     return False
 
 
-def contains_term(t, needle):
-    return any(s == needle for s in subterms(t))
+def contains_term(t, needle, cut=("Collector::collect",)):
+    """needle occurs in t, not counting occurrences inside the arguments of a `cut` call (whose result is handled by dedicated rules)."""
+    if t == needle:
+        return True
+    if not isinstance(t, tuple) or not t:
+        return False
+    if t[0] == "call":
+        if cut and is_call(t, list(cut)):
+            return False
+        return any(contains_term(a, needle, cut) for a in t[2])
+    for x in t[1:]:
+        if isinstance(x, tuple):
+            if x and isinstance(x[0], str):
+                if contains_term(x, needle, cut):
+                    return True
+            else:
+                for y in x:
+                    if isinstance(y, tuple) and contains_term(y, needle, cut):
+                        return True
+    return False
 
 
 class Site:
@@ -148,11 +166,22 @@ def classify(facts, body, src):
         elem = ("param", 2)
         walk_element(cl, elem, via, in_closure=True)
 
+    seen_elems = set()
+
     def walk_element(b, elem, via, in_closure=False):
-        uses = [c for c in b.calls() if any(contains_term(a, elem) for a in c.args)]
+        if (b.path, elem) in seen_elems:
+            return
+        seen_elems.add((b.path, elem))
+        uses = [c for c in b.calls() if any(contains_term(a, elem, cut=()) for a in c.args)]
         for c in uses:
             if c.matches("Collector::collect"):
                 site.special.append(("collector-collect", c))
+                continue
+            if not any(contains_term(a, elem) for a in c.args):
+                continue   # only through the result of Collector::collect
+            if strip_generics(c.callee).split("::")[-1].startswith("set_") and len(c.args) >= 2 and any(contains_term(a, elem) for a in c.args[1:]):
+                # a setter taints its receiver: follow the object that now carries the element
+                walk_element(b, peel(c.args[0]), c)
                 continue
             if c.matches(ORDER_SINKS):
                 recv_ty = term_ty(b, c.args[0])
